@@ -19,7 +19,19 @@ NA = {
     "C19": "pure function of two integers",
 }
 
+HIST_NOTE = "Trusts NumPy (concatenate, column_stack, take, boolean selection) as reference semantics and the generator's guards for keeping arguments inside each operation's documented domain; from_array's content is C01's business (the model adopts its result)."
+HIST_TECH = "deterministic simulation: seeded operation-and-fault histories (incl. persist/crash/reload through a simulated disk) executed on real iindex objects and a dense NumPy reference model, judged after every step; ddmin-minimised replay files"
+
 CHECKS = [
+    ("C06", "hist", "exploration", "4 C06",
+     "Sequential-conformance tier of the history engine: seeded histories of 2-24 operations over up to four live indexes (different commons, 1-D/2-D, 3-D for slicing) are executed on the real objects and on a dense NumPy model; after every step every live index must decode (own decoder and to_array(dtype=int)) to its model, non-receiver operands must be byte-identical to their snapshots and requested copies must share no storage. Sampling over histories.",
+     HIST_NOTE, HIST_TECH),
+    ("C07", "hist", "exploration", "4 C07",
+     "Same histories as C06; after every step every live index (and every slice yielded by slices1d, every from_array result, every reload from the simulated disk) must satisfy validate(True) plus dtype, strict ordering, range, arity, coordinate-in-shape, non-emptiness, no-common-entry, and the derived abscissae/sparsity identities; two well-formed 1-D indexes over the same rows must be crossable by ccube. Sampling over histories.",
+     HIST_NOTE, HIST_TECH),
+    ("C15", "hist", "exploration", "4 C15",
+     "Same histories as C06; after every library-chosen normalisation (shift_common(), append, filtered, collapsed, from_array without common) the chosen common must be a most frequent value of the dense content; after every step ==/!= are evaluated over all pairs of live indexes and their directly-built twins and must coincide with (shape, common, dense content) equality, never raise, and be False against non-indexes. Sampling over histories.",
+     HIST_NOTE, HIST_TECH),
     ("C10", "disk", "exploration", "4 C10",
      "Fault-free arm of the storage simulation: seeded entry sets and generated indexes are written by the real IndxIO.save through a logging file object onto a memfd, the disk is cleanly restarted and the real IndxIO.load runs on a fresh descriptor; results are compared field by field (plain ints, uint32 arrays, association, rebuilt index equality and validation). Sampling over inputs, not a proof.",
      "Trusts NumPy/CPython/the kernel's memfd; the write-log-reproduces-file guard turns a bypassed seam into a harness error.",
